@@ -341,6 +341,21 @@ func (w *World) monitorProgress() { w.monitorProgressAs("C10") }
 
 // monitorProgressAs attributes a lack of progress to the given property.
 func (w *World) monitorProgressAs(prop string) {
+	// a connection that failed under the read routine is left: no later
+	// read on it (a deadline expiry is not a failure of the connection)
+	failedAt := map[int]int{}
+	for _, e := range w.log {
+		if e.K != "read" || !strings.HasSuffix(e.T, "reader") && !strings.Contains(e.T, "reader.") {
+			continue
+		}
+		if at, bad := failedAt[e.C]; bad {
+			w.Violate(prop, "read-on-failed-connection", "the read routine reads from c%d at step %d although its read at step %d had failed: the failure was returned by ReadSlices but the connection was not left (no Offline, pending requests not released, no redial)", e.C, e.Step, at)
+			break
+		}
+		if e.R != "" && !strings.Contains(e.R, "timeout") {
+			failedAt[e.C] = e.Step
+		}
+	}
 	if w.stalledForGood() {
 		return
 	}
